@@ -6,7 +6,7 @@ LangByName(n) == Library[CHOOSE i \in DOMAIN Library : LibraryNames[i] = n]
 LngDef == LangByName(EnvOr("VERIF_LANG", "LTiny"))
 \* fixed model: a:Ta --Lk--> b:Ua (so a:s <-> b:s is a cycle), one attacker with an existing and a non-existing entry step
 FixAssets == << [h |-> 1, id |-> 0, name |-> "a", type |-> "Ta", def |-> [d |-> 0], extras |-> 0],
-                [h |-> 2, id |-> 1, name |-> "b", type |-> "Ua", def |-> [d |-> 10], extras |-> 0] >>
+                [h |-> 2, id |-> 1, name |-> "a:1", type |-> "Ua", def |-> [d |-> 10], extras |-> 0] >>
 FixAssocs == << [h |-> 3, cls |-> 1, l |-> <<1>>, r |-> <<2>>, extras |-> 0] >>
 FixAtk == << [h |-> 4, id |-> 2, name |-> "atk", ep |-> << [a |-> 1, steps |-> <<"s", "zz">>], [a |-> 2, steps |-> <<"d">>] >>],
              [h |-> 5, id |-> 3, name |-> "atk2", ep |-> << [a |-> 2, steps |-> <<"s">>] >>] >>
